@@ -137,32 +137,7 @@ pub open spec fn distinct_members(m: Seq<Member>) -> bool { forall|i: int, j: in
     r is Ok ==> distinct_members(final(members)@) && final(members)@.to_multiset() == old(members)@.to_multiset()
 @end
 
-@method packages/cw4/src/hook.rs MemberDiff new
-@requires
-    <T as IntoSpec<String>>::obeys_into_spec()
-@ensures C14.member_diff_new
-    r.key == into_string_spec(addr) && r.old == old_weight && r.new == new_weight
-@end
-
-@method packages/cw4/src/hook.rs MemberChangedHookMsg into_json_binary
-@ensures C14.hook_payload
-    r is Ok && r->Ok_0@ == MemberChangedExecuteMsg::MemberChangedHook(self).json()
-@end
-
-/// "this message is exactly one MemberChangedHook notification carrying `diffs`, sent to `hook`"
-pub open spec fn is_hook_msg(m: SubMsg<Empty>, hook: Seq<char>, msg: MemberChangedHookMsg) -> bool {
-    m == SubMsg::<Empty>::new_spec(m.msg) && m.msg is Wasm && m.msg->Wasm_0 is Execute
-    && m.msg->Wasm_0->Execute_contract_addr@ == hook && m.msg->Wasm_0->Execute_funds@.len() == 0
-    && m.msg->Wasm_0->Execute_msg@ == MemberChangedExecuteMsg::MemberChangedHook(msg).json()
-}
-@method packages/cw4/src/hook.rs MemberChangedHookMsg into_cosmos_msg
-@requires
-    <T as IntoSpec<String>>::obeys_into_spec()
-@ensures C14.hook_message
-    r is Ok && is_hook_msg(SubMsg::<Empty>::new_spec(r->Ok_0), into_string_spec(contract_addr)@, self)
-@prefix
-    broadcast use msg_conv;
-@end
+@include inc/cw4_hooks.vsi
 
 pub open spec fn wsum(m: Seq<Member>, n: int) -> nat decreases n { if n <= 0 { 0 } else { wsum(m, n - 1) + m[n - 1].weight as nat } }
 pub open spec fn only_members_keys(s: Raw, m: Seq<Member>, n: int) -> bool {
